@@ -97,7 +97,7 @@ func (w *world) monAdapt(st *step) {
 	}
 }
 
-func (w *world) monRead(ctx context.Context, st *step, c *call, v *row) error {
+func (w *world) monRead(ctx context.Context, st *step, c *call, v any) error {
 	if ctx == nil {
 		ctx = context.Background()
 	}
